@@ -361,6 +361,13 @@ def gen(rng, tier):
                     extra.append("func %s(%s)%s {%s}\n" % (name, render_groups(ps), res, " return nil " if res else ""))
                     tr["funcs"].append({"name": name, "params": ps, "results": res, "body": [], "calls": [], "stmts": []})
                 files[p] = files[p] + "\n" + "\n".join(extra)
+                # and a function of the file the walk reaches FIRST that calls a method on a struct declared in a later file
+                ps = sorted(files)
+                later = [(q, st["name"]) for q in ps[1:] for st in truth[q]["structs"]]
+                if later:
+                    q, tname = rng.choice(later)
+                    files[ps[0]] = files[ps[0]] + "\nfunc CrossUse(s *%s) {\n\ts.Touch()\n}\n" % tname
+                    truth[ps[0]]["funcs"].append({"name": "CrossUse", "params": [(["s"], "*" + tname)], "results": "", "body": [], "calls": [("s", "Touch")], "stmts": []})
                 case["unmodelled"] = True
             sh.append(case)
         shards.append(sh)
@@ -541,8 +548,45 @@ def view(o):
     if isinstance(o, dict) and "corpus" in o:
         return {"corpus": True}
     if isinstance(o, dict) and "unmodelled" in o:
-        return {"unmodelled": True}
+        return {"unmodelled": True, "commandAgreesWithPasses": cli_agrees(o) if "containers" in o else True}
     return view_(o)
+
+
+def cli_agrees(o):
+    """does the result of the command itself (`coca-go analysis -p dir`: flat) carry, for every type and function whose name is unique in
+    the tree, the same functions and the same call entries - package and type of the target included - as the two passes driven
+    file by file (identifier pass over ALL files, then the full pass)? The call-target resolution is not modelled, but it must not
+    depend on how the command walks the files."""
+    if "flat" not in o:
+        return True
+    def calls(cs):
+        return [[c.get("Package"), c.get("Type"), c["NodeName"], c["FunctionName"]] for c in cs]
+    per = {}
+    for c in o["containers"]:
+        if "File" not in c:
+            continue
+        for d in c["DataStructures"]:
+            per.setdefault(d["NodeName"], []).append(("ds", d))
+        for m in c["Members"]:
+            for f in m["FunctionNodes"]:
+                per.setdefault(f["Name"], []).append(("fn", f))
+    flat = {}
+    for d in o["flat"]:
+        flat.setdefault(d["NodeName"], []).append(d)
+    for name, items in per.items():
+        if len(items) != 1 or len(flat.get(name, [])) != 1:
+            continue
+        kind, x = items[0]
+        y = flat[name][0]
+        if kind == "fn":
+            if calls(x["FunctionCalls"]) != calls(y["FunctionCalls"]):
+                return False
+        else:
+            fx = {f["Name"]: calls(f["FunctionCalls"]) for f in x["Functions"]}
+            fy = {f["Name"]: calls(f["FunctionCalls"]) for f in y["Functions"]}
+            if fx != fy:
+                return False
+    return True
 
 
 def view_(o):
@@ -559,7 +603,7 @@ def view_(o):
                     "DataStructures": [{"NodeName": d["NodeName"], "Package": d["Package"], "InOutProperties": vprops(d["InOutProperties"]), "Functions": vfns(d["Functions"]),
                                         "Annotations": d["Annotations"]} for d in c["DataStructures"]],
                     "Members": [{"DataStructID": m["DataStructID"], "Type": m["Type"], "Name": m["Name"], "FunctionNodes": vfns(m["FunctionNodes"])} for m in c["Members"]]})
-    return {"containers": out}
+    return {"containers": out, "commandAgreesWithPasses": cli_agrees(o)}
 
 
 def nontrivial(case, mo):
